@@ -19,6 +19,11 @@ impl FlagCfg {
     /// mapfile lines; every bit gets a line so that default_on is fully specified
     pub fn mapfile_section(&self) -> String {
         let mut s = String::from("!difficulty_flags\n");
+        // "REDEF" schemes: every bit is first defined with the opposite default and then defined again (a later mapfile line
+        // or a second mapfile overriding an earlier one): the last definition decides
+        if self.scheme.starts_with("REDEF") {
+            for &(bit, name) in &self.names { s += &format!("{} {}{}\n", bit, name, if self.default_on >> bit & 1 == 1 { '-' } else { '+' }); }
+        }
         for &(bit, name) in &self.names { s += &format!("{} {}{}\n", bit, name, if self.default_on >> bit & 1 == 1 { '+' } else { '-' }); }
         s
     }
@@ -61,6 +66,7 @@ pub fn flag_cfgs(thorough: bool) -> Vec<FlagCfg> {
         ("ENHLXO+digits", vec![(0, 'E'), (1, 'N'), (2, 'H'), (3, 'L'), (4, 'X'), (5, 'O'), (6, '6'), (7, '7')]),
         ("letters", vec![(0, 'a'), (1, 'b'), (2, 'c'), (3, 'd'), (4, 'e'), (5, 'f'), (6, 'g'), (7, 'h')]),
         ("renamed-twice", vec![(0, 'E'), (0, 'Q'), (1, 'N'), (2, 'H'), (3, 'L'), (4, '4'), (5, '5'), (6, '6'), (7, '7')]),
+        ("REDEF-ENHL+digits", vec![(0, 'E'), (1, 'N'), (2, 'H'), (3, 'L'), (4, '4'), (5, '5'), (6, '6'), (7, '7')]),
         ("shifted-letters", vec![(0, 'z'), (1, 'E'), (2, 'N'), (3, 'H'), (4, 'L'), (5, '5'), (6, '6'), (7, '7')]),
         // ambiguous definitions: one name for two bits / a digit naming another bit
         ("AMBIG-letter-reused", vec![(0, 'E'), (1, 'E'), (2, 'H'), (3, 'L'), (4, '4'), (5, '5'), (6, '6'), (7, '7')]),
@@ -272,7 +278,7 @@ pub fn run(tier: &str) -> Report {
     let mut work: Vec<Work> = (0..cfgs.len()).map(Work::A).collect();
     let n_a = work.len();
     // (b): configurations = ENHL+digits scheme with a few aux sets
-    let b_cfg_idx: Vec<usize> = cfgs.iter().enumerate().filter(|(_, c)| c.scheme == "ENHL+digits" && (if extra { vec![0x00u8, 0x10, 0xF0, 0x30, 0x01, 0x82, 0x20, 0x40, 0x80, 0x03, 0x0F, 0x50, 0xA0, 0xFF, 0x11, 0xE1] } else { vec![0x00u8, 0x10, 0xF0, 0x30, 0x01, 0x82] }).contains(&c.default_on)).map(|(i, _)| i).collect();
+    let b_cfg_idx: Vec<usize> = cfgs.iter().enumerate().filter(|(_, c)| (c.scheme == "ENHL+digits" || c.scheme == "REDEF-ENHL+digits" && [0x00u8, 0xF0, 0x30].contains(&c.default_on)) && (if extra { vec![0x00u8, 0x10, 0xF0, 0x30, 0x01, 0x82, 0x20, 0x40, 0x80, 0x03, 0x0F, 0x50, 0xA0, 0xFF, 0x11, 0xE1] } else { vec![0x00u8, 0x10, 0xF0, 0x30, 0x01, 0x82] }).contains(&c.default_on)).map(|(i, _)| i).collect();
     let labels: [&'static str; 12] = ["*", "E", "EN", "ENH", "ENHL", "L", "NH", "HL", "*-4", "EN-7", "0123", "*-E"];
     for &ci in &b_cfg_idx {
         for n in 2..=8usize {
